@@ -205,7 +205,7 @@ func (s *Sim) Gen(r *PRNG) Step {
 			add(k, lag)
 		case "kube", "podrm", "podlabel", "podorphan", "podown":
 			add(k, pods)
-		case "pvcterm":
+		case "pvcterm", "pvcgap":
 			add(k, len(s.Store.tables[KPVC]) > 0)
 		case "prel":
 			add(k, procParked)
@@ -331,7 +331,7 @@ func (s *Sim) Gen(r *PRNG) Step {
 		st.A = r.Intn(2)
 	case "delset":
 		st.A, st.B = r.Intn(nsets), r.Intn(3)
-	case "podrm", "podlabel", "podorphan", "pvcterm":
+	case "podrm", "podlabel", "podorphan", "pvcterm", "pvcgap":
 		st.A = r.Intn(16)
 	case "podown":
 		// B: owner class in the low two bits, bit 2 = reference written with another
